@@ -6,10 +6,12 @@ package store
 // never reaches the test main), so that
 //   - every operation runs under a *simulated deadline*: a watchdog inside the
 //     child measures the CPU time the process has burnt since the request
-//     arrived (getrusage, independent of machine load) and declares "hang" when
-//     an operation that normally costs microseconds has consumed cpuBudgetRead of
-//     CPU without returning; a spinning goroutine cannot be killed, the process
-//     can;
+//     arrived (getrusage) and declares "hang" when an operation that normally
+//     costs microseconds has consumed its budget of *user-mode* CPU without
+//     returning (an endless loop burns user time 1:1; kernel time is not
+//     counted at par because on an overloaded machine lock contention inside
+//     the kernel inflates it, and wall time says nothing at all); a spinning
+//     goroutine cannot be killed, the process can;
 //   - a panic or a runaway allocation in the code under test cannot take the
 //     worker down.
 // A wall-clock fallback in the worker (stallWall) catches an operation that
@@ -29,10 +31,11 @@ import (
 )
 
 const (
-	childEnv       = "VERIF_STORE_CHILD"
-	cpuBudgetRead  = 500 * time.Millisecond   // open / read operations (normally < 1 ms)
-	cpuBudgetWrite = 10000 * time.Millisecond // building + writing a block (normally < 100 ms)
-	stallWall      = 90 * time.Second
+	childEnv      = "VERIF_STORE_CHILD"
+	cpuBudgetRead = 500 * time.Millisecond   // point operations: open, read one record (normally < 1 ms)
+	cpuBudgetBulk = 10000 * time.Millisecond // work proportional to the data: ReadAll (one zstd decoder per record), block build/write/read
+	sysFactor     = 8                        // user+kernel CPU beyond sysFactor*budget also counts as a hang
+	stallWall     = 90 * time.Second
 )
 
 func mustJSON(v any) []byte {
@@ -43,18 +46,19 @@ func mustJSON(v any) []byte {
 	return b
 }
 
-func cpuNow() time.Duration {
+// cpuNow returns the user-mode and kernel-mode CPU time of the process.
+func cpuNow() (user, sys int64) {
 	var ru syscall.Rusage
 	if err := syscall.Getrusage(syscall.RUSAGE_SELF, &ru); err != nil {
-		return 0
+		return 0, 0
 	}
-	return time.Duration(ru.Utime.Nano() + ru.Stime.Nano())
+	return ru.Utime.Nano(), ru.Stime.Nano()
 }
 
 func budgetOf(op string) time.Duration {
 	switch op {
-	case "bswrite", "bsinit", "dbput", "dbsave", "dbcreate":
-		return cpuBudgetWrite
+	case "bswrite", "bsinit", "bsread", "dbput", "dbsave", "dbcreate", "dbreadall":
+		return cpuBudgetBulk
 	}
 	return cpuBudgetRead
 }
@@ -66,7 +70,8 @@ func childMain() {
 	var (
 		outMu    sync.Mutex
 		opActive atomic.Int64 // 0 idle, else budget in ns
-		opStart  atomic.Int64 // cpu at start, ns
+		opUser   atomic.Int64 // user cpu at start, ns
+		opSys    atomic.Int64 // kernel cpu at start, ns
 	)
 	send := func(r *response) {
 		outMu.Lock()
@@ -82,9 +87,11 @@ func childMain() {
 			if b == 0 {
 				continue
 			}
-			used := int64(cpuNow()) - opStart.Load()
-			if used > b && opActive.Load() == b {
-				send(&response{Hang: true, CPUms: used / 1e6})
+			u, k := cpuNow()
+			u -= opUser.Load()
+			k -= opSys.Load()
+			if (u > b || u+k > sysFactor*b) && opActive.Load() == b {
+				send(&response{Hang: true, CPUms: u / 1e6, SysMs: k / 1e6})
 				os.Exit(3)
 			}
 		}
@@ -96,7 +103,9 @@ func childMain() {
 			if jerr := json.Unmarshal(line, &q); jerr != nil {
 				send(&response{Err: "verif: bad request: " + jerr.Error()})
 			} else {
-				opStart.Store(int64(cpuNow()))
+				u, k := cpuNow()
+				opUser.Store(u)
+				opSys.Store(k)
 				opActive.Store(int64(budgetOf(q.Op)))
 				r := sut.handle(&q)
 				opActive.Store(0)
